@@ -1,5 +1,6 @@
 import FGVerif.Driver.Shared
 import FGVerif.Model.C19
+import FGVerif.Model.C11
 /-! driver operations for C19 -/
 namespace C19
 open SExp
@@ -22,7 +23,8 @@ def asOut : SExp → Option (Except Err Graph)
     symbols, orders or counts): the partition it induces is the finest any digest can induce -/
 def bracket (s : String) : String := "<" ++ s ++ ">"
 
-/-- `(bridge <ignore_aam 0|1> <graph> [impl])` → `(ok <graph | (raised K)> spec_model spec_impl)`
+/-- `(bridge <ignore_aam 0|1> <graph> [impl])` → `(ok <graph | (raised K)> spec_model spec_impl closed=0|1 wf=0|1)`
+    (`wf` = the hypotheses `C11.wellFormed g`, `C11.simple g` of `C19.bridge_spec_holds` / `bridge_lossless`)
     `(wl <iterations> <graph>)` → `(ok <hash under the bracket digest, hex> 1 _)` -/
 def handle : List SExp → Option SExp
   | .atom "bridge" :: ia :: g :: rest => do
@@ -35,7 +37,8 @@ def handle : List SExp → Option SExp
             pure (ofBool (specCheck ia g o))
         | _ => pure none'
       pure (.list [.atom "ok", ofOut model, ofBool (specCheck ia g model), si,
-                   .atom (if edgesClosed g then "closed=1" else "closed=0")])
+                   .atom (if edgesClosed g then "closed=1" else "closed=0"),
+                   .atom (if C11.wellFormed g && C11.simple g then "wf=1" else "wf=0")])
   | .atom "wl" :: k :: g :: _ => do
       let k ← asNat k
       let g ← asGraph g
